@@ -59,10 +59,10 @@ example : Spec.C01 "%do %m=%n;".toList (modelDump ⟨true, false, false⟩ "%do 
     Spec.C01 "d%do%local)and".toList (modelDump ⟨true, false, false⟩ "d%do%local)and".toList) = [] := by
   decide +kernel
 
-/-- known finding F10 (still open), refuted on the model: a macro comment inside an argument
-name leaves the name-phase checkpoint live and the debug build's assertion fires -/
-example : (modelDump ⟨true, false, false⟩ "%m(a%*c;b=1)".toList).outcome
-    = .panic "assertion failed: self.checkpoint.is_none()" := by
+/-- F10 (repaired by `fix:` c30296e): a macro comment inside an argument name used to leave the
+name-phase checkpoint live so that the debug build's assertion fired; regression witness -/
+example : Spec.C01 "%m(a%*c;b=1)".toList (modelDump ⟨true, false, false⟩ "%m(a%*c;b=1)".toList) = [] ∧
+    Spec.C01 "%m(a%*c;b=1)".toList (modelDump ⟨false, false, false⟩ "%m(a%*c;b=1)".toList) = [] := by
   decide +kernel
 
 end SasLexer
